@@ -6,6 +6,10 @@ props = [json.loads(l) for l in open(os.path.join(ROOT, "properties.jsonl"))]
 
 # id -> (engine crate, technique, level text, level note, design ref)
 CHECKS = {
+ "C20": ("vf-stateres", "bounded-exhaustive threshold-cell enumeration plus property-based random contents; differential against auth_check and the push condition",
+         "For room versions 3-11 every helper (ban / kick / unban / invite a given user, send a message or state event type, trigger a room notification, effective level) is compared with ruma's auth_check on the corresponding event in a minimal room, and with the sender_notification_permission push condition, over cells where each threshold the action reads and the target's level are absent or just below / at / above the actor's level (integer and pre-v10 string spellings), plus random full contents.",
+         "Trusted: ruma's auth_check as the statement of the authorization rules (itself checked against the spec by C08). Redaction helpers and user_can_change_user_power_level are outside the property's list; self-kick/unban not generated.",
+         "DESIGN.md section 5 C20"),
  "C01": ("vf-core", "property-based testing (proptest): value+spelling co-generation, reference encoder, metamorphic re-spelling, round-trip, rejection of poisoned documents",
          "Random search over JSON values generated together with one arbitrary textual spelling (key order, whitespace, escape style incl. surrogate pairs, duplicate keys, boundary integers, control/astral characters): every entry path must yield exactly the bytes of a reference canonical encoder written from the spec, a second spelling must give identical bytes, canonical bytes must parse back equal; documents containing one unrepresentable number must be rejected by every entry path.",
          "Trusted: rustc/std, proptest, serde_json's parser for building inputs (cross-checked because text and value are generated side by side), the hand-written reference encoder. Duplicate keys: last occurrence wins. Non-finite floats are outside the property.",
